@@ -28,6 +28,7 @@ type FuncAn struct {
 	canon map[ssa.Value]ssa.Value // load -> representative value (memory-versioned load numbering)
 
 	in        map[*ssa.BasicBlock]*State
+	out       map[*ssa.BasicBlock]*State
 	Converged bool
 	rpo       []*ssa.BasicBlock
 	entry     *State // precondition facts (roots: none)
@@ -37,6 +38,8 @@ type FuncAn struct {
 	inited2     map[*Atom]bool
 	provers     map[*State]*prover
 	atomLoad    map[*Atom]*ssa.UnOp // load atoms (and lengths of loads) -> the representative load
+	loadSnap    map[*ssa.UnOp]map[string]ssa.Value // struct-typed load -> locations available at the load
+	callSnap    map[*ssa.Call]map[string]ssa.Value // static call -> locations available right before the call
 	prods, quos []opRec
 }
 
@@ -48,6 +51,7 @@ type opRec struct {
 type condLemma struct {
 	pre    []Lin
 	okCall *ssa.Call // additionally requires: this call is known to have returned a nil error
+	preLits []instLit // additionally requires: these instantiated callee literals hold
 	post   []Lin
 	why    string
 }
